@@ -104,16 +104,30 @@ fn campaign<K: BoolKind>(seed: u64, cases: u32, nmin: u32, nmax: u32, rep: &mut 
 pub fn run(cfg: &Cfg) -> i32 {
     let start = Instant::now();
     let checks = Checks { canon: true, structure: false, rc: false, node_count: true };
-    if let Some(path) = &cfg.replay {
+    if let Some(path) = cfg.replay.as_ref().filter(|p| replay_case_is(p, |c| c["ops"].is_array() && c["cfg"].is_object())) {
         let v: Value = serde_json::from_str(&std::fs::read_to_string(path).expect("replay file")).expect("json");
         let case = &v["case"];
-        let hc: HCfg = serde_json::from_value(case["cfg"].clone()).unwrap();
-        let ops: Vec<Op> = serde_json::from_value(case["ops"].clone()).unwrap();
-        let c = Case { cfg: hc, ops };
-        let r = match case["kind"].as_str().unwrap_or("") {
-            "bdd" => check_case::<BddK>(&c, checks),
-            "bcdd" => check_case::<BcddK>(&c, checks),
-            _ => check_case::<ZbddK>(&c, checks),
+        let kind = case["kind"].as_str().unwrap_or("");
+        let r = if matches!(kind, "mtbdd-i64" | "mtbdd-f64" | "tdd") {
+            use crate::vkinds::*;
+            let caps = [1usize, 2, 16, 65536];
+            match kind {
+                "mtbdd-i64" => crate::vhist::vreplay_variants::<MtI64K>(case, checks, &caps),
+                "mtbdd-f64" => crate::vhist::vreplay_variants::<MtF64K>(case, checks, &caps),
+                _ => crate::vhist::vreplay_variants::<TddK>(case, checks, &caps),
+            }
+        } else {
+            match (serde_json::from_value::<HCfg>(case["cfg"].clone()), serde_json::from_value::<Vec<Op>>(case["ops"].clone())) {
+                (Ok(hc), Ok(ops)) => {
+                    let c = Case { cfg: hc, ops };
+                    match kind {
+                        "bdd" => check_case::<BddK>(&c, checks),
+                        "bcdd" => check_case::<BcddK>(&c, checks),
+                        _ => check_case::<ZbddK>(&c, checks),
+                    }
+                }
+                _ => Err("replay: the file does not contain a history case".into()),
+            }
         };
         return match r {
             Ok(_) => {
